@@ -54,6 +54,9 @@ impl Sites {
 }
 
 impl Family for Sites {
+    fn ambient(&self, idx: u64) -> u64 {
+        crate::engine::rot(idx)
+    }
     fn name(&self) -> String {
         "kinds-x-sites-x-messages".into()
     }
